@@ -56,7 +56,9 @@ Shapes ==
     [] Pool = "other" -> {Open(ps) : ps \in {<<>>, <<<<Cap("mp", 0)>>>>,
                                               <<<<Cap("mp", 0), Cap("gr", 2)>>, <<Cap("as4", 0)>>>>,
                                               <<<<Cap("unknown", 253)>>>>,
-                                              <<<<Cap("addpath", 3), Cap("fqdn", 9), Cap("rr", 0)>>>>}}
+                                              <<<<Cap("addpath", 3), Cap("fqdn", 9), Cap("rr", 0)>>>>,
+                                              <<<<Cap("softver", 6), Cap("fqdn", 2)>>, <<Cap("fqdn", 40)>>>>,
+                                              <<<<Cap("fqdn", 21), Cap("as4", 0)>>, <<Cap("softver", 2)>>>>}}
                          \cup {Notification(n) : n \in {0, 1, 7}} \cup {Refresh, Keepalive}
 
 OptPool == CASE Pool = "other" -> {Opt(FALSE, FALSE, FALSE, FALSE)}
@@ -92,7 +94,11 @@ ExpFieldCount ==
                           + (IF s.attrs[i].t = "mpreach" THEN 1 ELSE 0)
                           + Len(s.attrs[i].nl)
                           + (IF s.attrs[i].t = "aigp" THEN 1 ELSE 0)])
-         [] s.k = "open" -> 1 + Len(s.params) + SumSeq([i \in 1..Len(s.params) |-> Len(s.params[i])])
+         [] s.k = "open" -> 1 + Len(s.params)
+                            + SumSeq([i \in 1..Len(s.params) |->
+                                 SumSeq([j \in 1..Len(s.params[i]) |->
+                                    1 + (CASE s.params[i][j].c = "fqdn" -> 2 [] s.params[i][j].c = "softver" -> 1
+                                           [] OTHER -> 0)])])
          [] OTHER -> 0)
 D_FieldsComplete == mut = NoMut => Len(Fields(Bytes, o)) = ExpFieldCount
 
